@@ -400,6 +400,23 @@ ENS(!T(set1) && T(set2) ==> RET == -1)
 ENS((T(set1) == T(set2) && W(set1, g_k) != W(set2, g_k)) ==> RET != 0)
 ;
 
+/* compare_inclusion, forall direction for three ghost words, and the (quantifier-free) witness
+ * characterisation of INTERSECTS; the other four classes need quantified hypotheses (bitmap.quant.h) */
+#define CI_POST(g) CI_REL(RET, W(set1, g), W(set2, g))
+#define CI_TAILS  (((RET) == HWLOC_BITMAP_EQUAL ==> T(set1) == T(set2)) && ((RET) == HWLOC_BITMAP_INCLUDED ==> (!T(set1) || T(set2))) && \
+                   ((RET) == HWLOC_BITMAP_CONTAINS ==> (!T(set2) || T(set1))) && ((RET) == HWLOC_BITMAP_DIFFERENT ==> !(T(set1) && T(set2))))
+int hwloc_bitmap_compare_inclusion(const struct hwloc_bitmap_s * set1, const struct hwloc_bitmap_s * set2)
+REQ(BM(set1))
+REQ(__CPROVER_pointer_equals(set2, set1) || BM(set2))
+WIT_B(0, set1) WIT_B(1, set2) WIT_ALIAS(set2 == set1 ? 1 : 0)
+ASG()
+ENS(RET == HWLOC_BITMAP_EQUAL || RET == HWLOC_BITMAP_INCLUDED || RET == HWLOC_BITMAP_CONTAINS || RET == HWLOC_BITMAP_INTERSECTS || RET == HWLOC_BITMAP_DIFFERENT)
+ENS(CI_POST(g_k) && CI_POST(g_k2) && CI_POST(g_j) && CI_TAILS)
+ENS((((W(set1, g_k) & W(set2, g_k)) != 0 || (T(set1) && T(set2))) &&
+     ((W(set1, g_k2) & ~W(set2, g_k2)) != 0 || (T(set1) && !T(set2))) &&
+     ((W(set2, g_j) & ~W(set1, g_j)) != 0 || (T(set2) && !T(set1)))) ==> RET == HWLOC_BITMAP_INTERSECTS)
+;
+
 struct hwloc_bitmap_s * hwloc_bitmap_alloc(void)
 ASG()
 ENS(RET == NULL || (__CPROVER_is_fresh(RET, sizeof(struct hwloc_bitmap_s)) && REP(RET) && W(RET, g_k) == ZEROW && !T(RET)))
